@@ -100,14 +100,18 @@ def run(ctx):
             "the nonce must derive only from a CSPRNG draw; it is %s (non-random leaves: %s)" % (
                 tm.show(knonce)[:200], ", ".join(tm.show(b)[:60] for b in bad[:4]) or "no CSPRNG draw at all"),
             example="two signatures of different messages share r (key recovery)" )
-    # fresh per attempt: the draw sites are lexically inside the retry loop
+    # fresh per attempt: the random source is called while the retry loop's body runs (directly, through a helper, or by
+    # pulling from a stream of draws), for every draw the nonce is built from
     sites = {t.args[2] for t in tm.subterms(knonce) if isinstance(t, T) and t.op == "csprng"}
-    lo, hi = lp.node.lineno, lp.node.end_lineno
-    fresh = bool(sites) and all(lo <= int(x.split(":")[0]) <= hi for x in sites)
+    in_loop_sites = set()
+    for c in s.calls:
+        if c[0] in ("secrets.randbelow", "secrets.token_bytes", "os.urandom", "secrets.randbits") and any(isinstance(g, T) and g.op == "iter" and g.args[0] == lp.depth for g in c[4]):
+            in_loop_sites.add("%d:%d" % (c[3].lineno, c[3].col_offset) if hasattr(c[3], "lineno") else None)
+    fresh = bool(sites) and all(x in in_loop_sites for x in sites)
     R.check("C01.1", "PROV", fs, "nonce drawn inside the retry loop (fresh per attempt)", fresh,
             "the nonce is drawn outside the retry loop, so a retry reuses it")
     # zero nonce excluded
-    ivs = ival.ivals(knonce)
+    ivs = ival.ivals(knonce, list(smuls[0][5]) if smuls and len(smuls[0]) > 5 else [])
     R.check("C01.2", "INTERVAL", fs, "nonce in [1, N-1]", ival.subset(ivs, 1, N - 1),
             "the nonce's value set is %s, it must be within [1, N-1]" % _ivs(ivs),
             example="the random source returning 0 (or the boundary draw being mapped to a constant)")
